@@ -179,7 +179,8 @@ def _explore(out, tier, seed, facts, replay):
             inputs = [datagen.mem_input(s, "in%d" % i) for i, s in enumerate(ds["inputs"])]
             try:
                 d = verif.data.Data(inputs, dim_agg_length=h, dim_agg_axis=verif.axis.Leadtime(), dim_agg_method=aggs[aname])
-                got = d.get_scores([datagen.field_obj("obs"), datagen.field_obj("fcst")], 0, verif.axis.No(), 0)
+                kin_ = rng.randrange(len(inputs)) if all("obs" in s_["fields"] for s_ in ds["inputs"]) else 0      # any input, asked FIRST on this object
+                got = d.get_scores([datagen.field_obj("obs"), datagen.field_obj("fcst")], kin_, verif.axis.No(), 0)
             except datagen.ImplExit:
                 continue
             except Exception as e:
@@ -205,12 +206,27 @@ def _explore(out, tier, seed, facts, replay):
                         nc.append(newp)
                     s2["fields"][f] = nc
                 ds2["inputs"].append(s2)
-            want = datagen.impl_request(ds2, (["obs", "fcst"], 0, 3, 0))
+            want = datagen.impl_request(ds2, (["obs", "fcst"], kin_, 3, 0))
             nf += 1
             g = [[float(v) for v in col] for col in got]
             if not isinstance(want, tuple) and not all(common.close_lists(a, b, 1e-9) for a, b in zip(g, want)):
-                out.violation("dim-agg-through-data", "-T %r -Tagg %s: scores differ from the trailing-window transform of obs and fcst" % (h, aname),
+                out.violation("dim-agg-through-data", "-T %r -Tagg %s, input %d: scores differ from the trailing-window transform of ITS obs and fcst on ITS own lead-time grid" % (h, aname, kin_),
                               {"dataset": ds, "h": h, "agg": aname})
+            # ... and another input asked AFTERWARDS on the same object (its observations were loaded by the first request)
+            if len(inputs) > 1 and all("obs" in s_["fields"] for s_ in ds["inputs"]):
+                k2_ = (kin_ + 1) % len(inputs)
+                try:
+                    got2 = d.get_scores([datagen.field_obj("obs"), datagen.field_obj("fcst")], k2_, verif.axis.No(), 0)
+                    want2 = datagen.impl_request(ds2, (["obs", "fcst"], k2_, 3, 0))
+                    nf += 1
+                    g2 = [[float(v) for v in col] for col in got2]
+                    if not isinstance(want2, tuple) and not all(common.close_lists(a_, b_, 1e-9) for a_, b_ in zip(g2, want2)):
+                        out.violation("dim-agg-through-data", "-T %r -Tagg %s, input %d asked after input %d: scores differ from the trailing-window transform of ITS obs and fcst on ITS own lead-time grid" % (h, aname, k2_, kin_),
+                                      {"dataset": ds, "h": h, "agg": aname, "first_input": kin_, "then_input": k2_})
+                except datagen.ImplExit:
+                    pass
+                except Exception as e:
+                    out.violation("dim-agg-exception", "Data(dim_agg_length=%r): input %d after input %d raised %r" % (h, k2_, kin_, e), {"dataset": ds, "h": h, "agg": aname})
     # ensemble members are pre-aggregated too: probabilities and quantiles derived from the ensemble under -T
     import verif.field
     for _ in range(10 if tier == "quick" else 100):
